@@ -92,6 +92,7 @@ func raceGroups(c *Ctx) []raceGroup {
 		{"hs-det", 2},
 		{"stream-dir", 4}, {"stream-dir", p()},
 		{"stream-secret", p()},
+		{keyedPlainGroup, 4},
 	}
 	if c.Thorough() {
 		for _, q := range procChoices {
@@ -240,6 +241,11 @@ func raceDriver(c *Ctx) error {
 					pair := []string{fa, fb}
 					sort.Strings(pair)
 					key := "C17:race:" + pair[0] + "|" + pair[1]
+					if g.name == keyedPlainGroup {
+						// the keyed-but-not-encrypting state has its own key space: what is found there is one
+						// design matter (a single crypto switch for both directions), recorded as such
+						key = keyedPlainKey + "race:" + pair[0] + "|" + pair[1]
+					}
 					if seenRace[key] {
 						c.Count("race-reports-duplicate-site")
 						continue
@@ -356,6 +362,8 @@ func raceWorker(c *Ctx, group string) error {
 			wlStreamDir(c, out, false)
 		case "stream-secret":
 			wlStreamDir(c, out, true)
+		case keyedPlainGroup:
+			wlSecretKeyedPlain(c, out)
 		default:
 			out.Notes = append(out.Notes, "unknown group "+group)
 		}
